@@ -4,7 +4,7 @@ import importlib, json, os, re, sys
 HERE = os.path.dirname(os.path.dirname(os.path.abspath(__file__)))
 sys.path.insert(0, HERE)
 import vf.runner  # noqa
-MARGIN, FACTOR = 1.8, 0.55
+MARGIN, FACTOR = 2.2, 0.45
 for i in range(1, 21):
     pid = f"C{i:02d}"
     e = json.load(open(os.path.join(HERE, "evidence", pid + ".json")))
